@@ -24,6 +24,22 @@ type Replay struct {
 	Prefix   []int
 	Trace    []Choice
 	Diverged string
+	From     int // decisions before this index belong to the harness's sequential setup (SetupDone) and are not branched
+}
+
+// SetupDone is called by a scenario when its sequential set-up phase is over (after a Quiesce): the explorer
+// keeps the default schedule for every decision taken so far and branches only at later ones. The set-up of
+// a scenario is a fixed prefix, not part of the behaviour explored; evidence states it as a bound.
+//
+//go:norace
+func SetupDone() {
+	e := cur
+	if e == nil {
+		return
+	}
+	if r, ok := e.opts.Strategy.(*Replay); ok && r.From == 0 {
+		r.From = len(r.Trace)
+	}
 }
 
 // Choose implements Strategy.
@@ -242,6 +258,9 @@ func (x *explorer) explore(prefix []int, cost0 int, depth int) {
 	for i := len(prefix); i < len(trace); i++ {
 		c := trace[i]
 		x.states[c.FP] = struct{}{}
+		if i < rp.From {
+			continue // sequential set-up of the scenario: default schedule only
+		}
 		for alt := 1; alt < c.N; alt++ {
 			// deviation (delay) bounding: every departure from the default
 			// schedule costs one, whether it preempts a running thread,
